@@ -53,8 +53,8 @@ ASSUMPTIONS = [
     "the expected file after an edit is the original file with the one byte at sh_offset + k changed",
 ]
 
-CPU_CAP_SMALL = 0.25    # seconds of process CPU time for one parse/build of a file < 100 kB
-CPU_CAP_BIG = 2.0
+CPU_CAP_SMALL = 0.5     # seconds of process CPU time for one parse/build of a file < 100 kB
+CPU_CAP_BIG = 8.0
 MEM_CAP = 3 << 29       # address-space cap of a worker while deviated files are handled
 
 EHDR_FIELDS = elfcorpus.EHDR_FIELDS
@@ -116,6 +116,15 @@ def _guarded(f, cap):
         return None, "RecursionError"
     except Exception as ex:
         return None, type(ex).__name__
+
+
+def _guarded_sure(f, cap):
+    """Like _guarded, for calls whose failure would be reported as a violation: a CPU-cap trip is confirmed with
+    an 8 times larger cap (a non-terminating loop still trips it, a slow machine does not)."""
+    r, err = _guarded(f, cap)
+    if err == "cpu-cap":
+        r, err = _guarded(f, 8 * cap)
+    return r, err
 
 
 def cap_for(data):
@@ -217,11 +226,11 @@ def check_identity(ent):
     case = {"k": "identity", "file": ent["name"], "sha256": ent["sha256"]}
     st = {"reader_disagree": []}
     cap = cap_for(data)
-    e, err = _guarded(lambda: ELF(data), cap)
+    e, err = _guarded_sure(lambda: ELF(data), cap)
     if err:
         return [violation("identity:parse-%s" % err, "ELF(%s) ends with %s (a toolchain-produced %s file is not accepted)"
                           % (ent["name"], err, cls), case)], st
-    out, err = _guarded(lambda: bytes(e), cap)
+    out, err = _guarded_sure(lambda: bytes(e), cap)
     if err:
         return [violation("identity:build-%s" % err, "bytes(ELF(%s)) ends with %s" % (ent["name"], err), case)], st
     vs = []
@@ -231,7 +240,7 @@ def check_identity(ent):
         vs.append(violation("identity:bytes-differ:%s" % region,
                             "bytes(ELF(%s)) differs from the file (%d vs %d bytes), first at offset %#x: %r became %r"
                             % (ent["name"], len(data), len(out), k, data[k:k + 8], out[k:k + 8]), case))
-    v, err = _guarded(lambda: view(e), cap)
+    v, err = _guarded_sure(lambda: view(e), cap)
     if err:
         return vs + [violation("identity:tables-unreadable-%s" % err, "tables of ELF(%s) cannot be read: %s" % (ent["name"], err), case)], st
     # the sections the parser hands out must hold the file's bytes (baseline of "the same sections")
@@ -322,7 +331,10 @@ def check_edit(ent, i, pos, xor, path, orig_view=None):
         return [], "refused:%s:%s:%s" % (path, stype, err)
     what0 = "%s: section %d (%s, %r, %#x bytes at offset %#x), %s byte %#04x -> %#04x through %s" % (
         ent["name"], i, stype, _safe(lambda: bytes(s.sh.name)), len(old), sh.offset, pos, old[k], nb[0], path)
-    out, err = _guarded(lambda: bytes(e), cap)
+    live, err = _guarded_sure(lambda: view(e), cap) if path != "patch" else (None, None)
+    if err:
+        return [violation("edit:live-tables-unreadable-%s:%s" % (err, sig_tail), what0 + ": the tables of the modified object cannot be read (%s)" % err, case)], "violation"
+    out, err = _guarded_sure(lambda: bytes(e), cap)
     if err:
         return [violation("edit:build-%s:%s" % (err, sig_tail), what0 + ": bytes(elf) ends with %s" % err, case)], "violation"
     expected = data[:sh.offset + k] + nb + data[sh.offset + k + 1:]
@@ -330,7 +342,7 @@ def check_edit(ent, i, pos, xor, path, orig_view=None):
     if err:
         # the content change itself makes the file unreadable for this parser: nothing to compare with
         return [], "expected-file-unparseable:%s:%s" % (stype, err)
-    got, err = _guarded(lambda: view(ELF(out)), cap)
+    got, err = _guarded_sure(lambda: view(ELF(out)), cap)
     if err:
         return [violation("edit:reparse-%s:%s" % (err, sig_tail), what0 + ": re-parsing the serialised file ends with %s" % err, case)], "violation"
     vs = []
@@ -346,6 +358,12 @@ def check_edit(ent, i, pos, xor, path, orig_view=None):
                 j, kk, x[kk:kk + 4], y[kk:kk + 4], " [the edited section]" if j == i else "")
         vs.append(violation("edit:tables-differ:%s:%s" % ("+".join(d), sig_tail),
                             what0 + ": re-parsed file differs from the expected file in %s%s" % (", ".join(d), detail), case))
+    if live is not None:
+        # the modified object itself must already show what a re-parse of its serialisation shows
+        d2 = diff_views(live, got)
+        if d2:
+            vs.append(violation("edit:live-object-differs-from-reparse:%s:%s" % ("+".join(d2), sig_tail),
+                                what0 + ": the modified object and the re-parse of its serialisation differ in %s" % ", ".join(d2), case))
     outcome = "ok"
     if orig_view is not None:
         changed = [x for x in diff_views(orig_view, want) if x not in ("section-contents",)]
@@ -403,11 +421,11 @@ def check_deviation(ent, label, fcls, off, sz, delta):
     b1, err = guarded(lambda: bytes(e1))
     if err:
         return [], "refused-build:" + err
-    e2, err = guarded(lambda: ELF(b1))
+    e2, err = _guarded_sure(lambda: ELF(b1), cap)
     if err:
         return [violation("deviation:reparse-%s:%s" % (err, dsig),
                           what0 + ": accepted and built, but parsing the built bytes ends with %s" % err, case)], "violation"
-    v2, err = guarded(lambda: view(e2))
+    v2, err = _guarded_sure(lambda: view(e2), cap)
     if err:
         return [violation("deviation:reparse-view-%s:%s" % (err, dsig), what0 + ": tables of the re-parsed file cannot be read (%s)" % err, case)], "violation"
     vs = []
@@ -416,7 +434,7 @@ def check_deviation(ent, label, fcls, off, sz, delta):
         vs.append(violation("deviation:unstable:%s:%s" % ("+".join(d), dsig),
                             what0 + ": parse -> build -> parse changes %s" % ", ".join(d), case))
     else:
-        b2, err = guarded(lambda: bytes(e2))
+        b2, err = _guarded_sure(lambda: bytes(e2), cap)
         if err:
             vs.append(violation("deviation:rebuild-%s:%s" % (err, dsig), what0 + ": second build ends with %s" % err, case))
         elif b2 != b1:
